@@ -1,6 +1,6 @@
 (* C18 correspondence: each case carries the implementation's observations;
    case_ok recomputes them with the model. *)
-From PV Require Import Lib.Base C18.Model.
+From PV Require Import Lib.Base C18.Model C18.Bech32 C18.Bech32Addr.
 Open Scope Z_scope.
 
 Inductive case :=
@@ -16,10 +16,21 @@ Inductive case :=
 (* Address::from_bytes on arbitrary bytes *)
 | CBytes (bs : list Z) (res : outcome address)
 (* Address::from_hex on an arbitrary string *)
-| CHex (s : list Z) (res : outcome address).
+| CHex (s : list Z) (res : outcome address)
+(* a.to_bech32(): the string, or the error class *)
+| CBech (a : address) (s : outcome (list Z))
+(* ShelleyPaymentPart / ShelleyDelegationPart::to_bech32: encode_bech32(data, hrp) *)
+| CPartBech (hrp data s : list Z)
+(* Address::from_bech32 on an arbitrary string *)
+| CFromBech (s : list Z) (res : outcome address)
+(* Address::from_str on a string for which ByronAddress::from_base58 fails *)
+| CFromStr (s : list Z) (res : outcome address).
 
 (* Byron arm: C19's business; the harness only sends type-8 inputs that fail *)
 Definition p8_stub (_ : Z) (_ : list Z) : outcome address := Err E_BYRON_CBOR.
+
+(* base58 arm of from_str: the harness only sends strings on which it fails *)
+Definition b58_stub (_ : list Z) : outcome address := Err E_BAD_BASE58.
 
 Definition read_obs (bs : list Z) : outcome (Z * Z) :=
   match varuint_read bs with
@@ -36,7 +47,8 @@ Inductive out :=
 | ORead (r : outcome (Z * Z))
 | OPtr (r : outcome (Z * Z * Z))
 | OAddr (vec : list Z) (header tid : Z) (h : outcome (list Z)) (hexs : list Z) (back : outcome address)
-| OBytes (r : outcome address).
+| OBytes (r : outcome address)
+| OStr (s : outcome (list Z)).
 
 Definition case_out (c : case) : out :=
   match c with
@@ -47,6 +59,10 @@ Definition case_out (c : case) : out :=
       OAddr (to_vec a) (to_header a) (typeid a) (hrp a) (to_hex a) (from_bytes p8_stub (to_vec a))
   | CBytes bs _ => OBytes (from_bytes p8_stub bs)
   | CHex s _ => OBytes (from_hex p8_stub s)
+  | CBech a _ => OStr (to_bech32 enc_total a)
+  | CPartBech h d _ => OStr (Ok (enc_total h d))
+  | CFromBech s _ => OBytes (from_bech32 bech32_decode p8_stub s)
+  | CFromStr s _ => OBytes (from_str bech32_decode b58_stub p8_stub s)
   end.
 
 Definition case_ok (c : case) : bool :=
@@ -61,4 +77,8 @@ Definition case_ok (c : case) : bool :=
       outcome_eqb address_eqb (from_bytes p8_stub vec) back
   | CBytes bs res => outcome_eqb address_eqb (from_bytes p8_stub bs) res
   | CHex s res => outcome_eqb address_eqb (from_hex p8_stub s) res
+  | CBech a s => outcome_eqb bytes_eqb (to_bech32 enc_total a) s
+  | CPartBech h d s => bytes_eqb (enc_total h d) s
+  | CFromBech s res => outcome_eqb address_eqb (from_bech32 bech32_decode p8_stub s) res
+  | CFromStr s res => outcome_eqb address_eqb (from_str bech32_decode b58_stub p8_stub s) res
   end.
